@@ -23,6 +23,7 @@ structure Species where
   init : Option Rat
   isAmount : Bool        -- initialAmount (true) / initialConcentration (false)
   hosu : Bool            -- hasOnlySubstanceUnits
+  fixed : Bool := false  -- boundaryCondition or constant: no reaction changes the amount (there are no rate rules)
 deriving Repr, Inhabited
 
 structure FunDef where
@@ -127,9 +128,11 @@ def docVal17 (I : Interp) (d : Doc) (amounts : List (String × Rat)) (n : String
   let sd := toSDoc d
   (docValue I sd (symState d amounts) sd.fuel n).map Val.toNum
 
-/-- d amount / dt -/
+/-- d amount / dt (a boundary / constant species appears in reactions without being changed by them) -/
 def docRhs17 (I : Interp) (d : Doc) (amounts : List (String × Rat)) (x : String) : Option Rat :=
-  docRhs I (toSDoc d) (symState d amounts) x
+  match findSpecies d x with
+  | some s => if s.fixed then some 0 else docRhs I (toSDoc d) (symState d amounts) x
+  | none => docRhs I (toSDoc d) (symState d amounts) x
 
 /-! ### mxlpy's stage: module name -/
 
